@@ -339,3 +339,15 @@ package x509
 //@ pure
 //@ fresh result
 //@ ensures [the-chain-so-far-then-the-new-certificate] len(result) == len(chain) + 1 && result[len(chain)] == cert && (forall j int :: 0 <= j && j < len(chain) ==> result[j] == chain[j])
+
+// Key parsers are total (C11): the SEC1 private-key parser never indexes or slices out of range,
+// whatever padding the key octets carry.
+//@ func parseECPrivateKey
+//@ props C11
+//@ arith int
+//@ modifies nothing
+//@ frame-trusted decodes into locals and builds a new key
+//@ site namedCurveFromOID#1 as c1
+//@ site namedCurveFromOID#2 as c2
+//@ loop 1 invariant 0 <= len(privateKey)
+//@ ensures [a-key-or-an-error] (key != nil) != (err != nil)
